@@ -1151,16 +1151,46 @@ class RectBC(RectBase):
                   2 * cx['_Ttop'] * (1 - (-1) ** n) / (n * pi), scale=sc)
 
 
+class SpyNP(object):
+    """numpy stand-in that records the caller's local variables whenever np.exp is called (the real Rectangle._run calls it
+    once per transient term, right after computing the coefficient Anm); everything is delegated to `inner'"""
+
+    def __init__(self, inner, log):
+        self._inner = inner
+        self._log = log
+
+    def __getattr__(self, name):
+        f = getattr(self._inner, name)
+        if name != 'exp':
+            return f
+
+        def exp(*a, **k):
+            self._log.append(dict(sys._getframe(1).f_locals))
+            return f(*a, **k)
+        return exp
+
+
 class RectCoeff(RectBase):
-    """T(x,y,0+) = 0: the transient part at t=0 and its y-derivative, read at points where every sine/cosine is a rational
-    table value, equal the corresponding sums of the projections of -(static solution) (Green's identity with the declared
-    top value Ttop).  The value at y=b/2 weighs the odd m, the y-derivative the even m."""
+    """T(x,y,0+) = 0.  (i) every coefficient Anm computed by _run (read from its local variable through a recording numpy
+    stand-in) is the projection of -(static solution) on sin(kn x) sin(km y) (Green's identity with the declared top
+    value Ttop); (ii) assembly: the transient part returned at t=0 and its y-derivative, at points where every sine/cosine
+    is a rational table value, are the sums of those coefficients times the table values (value at y=b/2 weighs the odd m,
+    the y-derivative the even m)."""
     XS = (2, 6)       # x = a/2, a/6
 
     def __init__(self, nsum):
         self.setup(nsum)
         self.id = 'C14.coeff.rectangle'
-        self.bounds = 'Nsum=%d: transient modes n<%d, 1<=m<%d; kappa, a, b, Ttop symbolic; value and d/dy at (a/2,b/2), (a/6,b/2)' % (nsum, nsum, nsum)
+        self.bounds = 'Nsum=%d: transient modes n<%d, 1<=m<%d; kappa, a, b, Ttop symbolic; assembly at (a/2,b/2), (a/6,b/2)' % (nsum, nsum, nsum)
+
+    def build(self, mk):
+        log = []
+        with patched(self.m, 'np', lambda inner: SpyNP(inner, log)):
+            out = RectBase.build(self, mk)
+        for loc in log:
+            if 'Anm' in loc and 'm' in loc and 'n' in loc:
+                out.setdefault('A_%d_%d' % (loc['n'], loc['m']), loc['Anm'])
+        return out
 
     def claims(self, cx):
         cx = Guarded(cx)
@@ -1169,6 +1199,15 @@ class RectCoeff(RectBase):
         hy = lambda c: c.d(h, 'y')
         a, b, Ttop = cx['_a'], cx['_b'], cx['_Ttop']
         pi = cx.const('PI')
+        sc = None if cx.symbolic else [Ttop, 1e-30]
+        idx = [(n, m) for n in range(self.nsum) for m in range(1, self.nsum)]
+        for n, m in idx:
+            kn = (2 * n + 1) * pi / a
+            km = m * pi / b
+            # -(4/(a b)) int int Tbar sin(kn x) sin(km y) = 4 Ttop km (-1)^m (1 - cos(kn a)) / (a b kn (kn^2+km^2)), cos(kn a) = -1
+            ref = 8 * Ttop * km * (-1) ** m / (a * b * kn * (kn * kn + km * km))
+            cx.eq('coefficient (n=%d, m=%d) = projection of -static on sin((2n+1) pi x/a) sin(m pi y/b)' % (n, m),
+                  cx['A_%d_%d' % (n, m)], ref, scale=sc)
 
         def tv(name, fr):
             t = trig_value(name, fr)
@@ -1177,21 +1216,21 @@ class RectCoeff(RectBase):
             where = dict(x=cx.p('a') / p, y=cx.p('b') / 2, t=0)
             got = ts(at(cx, h, **where))
             goty = ts(at(cx, hy, **where)) * b
+            A = {nm: cx['A_%d_%d' % nm] for nm in idx}
+            if cx.symbolic:
+                # the coefficients enter linearly: prove the assembly for arbitrary coefficient values
+                vals = generalise([got, goty] + [A[nm] for nm in idx], [(A[nm], 'A#%d#%d' % nm) for nm in idx])
+                got, goty = vals[0], vals[1]
+                A = dict(zip(idx, vals[2:]))
             ref = 0
             refy = 0
-            for n in range(self.nsum):
-                kn = (2 * n + 1) * pi / a
-                for m in range(1, self.nsum):
-                    km = m * pi / b
-                    # -(4/(a b)) int int Tbar sin(kn x) sin(km y) = 4 Ttop km (-1)^m (1 - cos(kn a)) / (a b kn (kn^2+km^2))
-                    Anm = 8 * Ttop * km * (-1) ** m / (a * b * kn * (kn * kn + km * km))
-                    sx = tv('sin', Fraction(2 * n + 1, p))
-                    ref = ref + Anm * sx * tv('sin', Fraction(m, 2))
-                    refy = refy + Anm * sx * km * b * tv('cos', Fraction(m, 2))
-            sc = None if cx.symbolic else [Ttop, 1e-30]
-            cx.eq('transient part at t=0, (x,y)=(a/%d,b/2) = sum of projections of -static' % p, got, ref, scale=sc)
-            cx.eq('y-derivative of the transient part at t=0, (x,y)=(a/%d,b/2) = sum of projections of -static' % p, goty, refy,
-                  scale=None if cx.symbolic else [Ttop * self.nsum, 1e-30], tol=1e-4)
+            for n, m in idx:
+                sx = tv('sin', Fraction(2 * n + 1, p))
+                ref = ref + A[(n, m)] * sx * tv('sin', Fraction(m, 2))
+                refy = refy + A[(n, m)] * sx * (m * pi) * tv('cos', Fraction(m, 2))
+            cx.eq('transient part at t=0, (x,y)=(a/%d,b/2) = sum of coefficients x mode values' % p, got, ref, scale=sc)
+            cx.eq('y-derivative of the transient part at t=0, (x,y)=(a/%d,b/2) = sum of coefficients x mode derivatives' % p,
+                  goty, refy, scale=None if cx.symbolic else [Ttop * self.nsum, 1e-30], tol=1e-4)
 
 
 class RectSteady(RectBase):
